@@ -26,6 +26,8 @@ type EvalCtx struct {
 	where string
 	fresh string
 	reads []readRec // slice element reads seen inside the innermost quantifier
+	neg   bool      // polarity flipped relative to the mode of the frame (inside ! or the left side of ==>)
+	nopol bool      // inside <==>: both polarities
 }
 
 type readRec struct {
@@ -151,7 +153,10 @@ func (e *EvalCtx) eval(n *XNode) Val {
 	case "unary":
 		switch n.Val {
 		case "!":
-			return S{not(e.evalBool(n.Kids[0])), boolT}
+			e.neg = !e.neg
+			t := e.evalBool(n.Kids[0])
+			e.neg = !e.neg
+			return S{not(t), boolT}
 		case "-":
 			v := e.evalS(n.Kids[0])
 			return S{app("-", v.T), v.Ty}
@@ -194,7 +199,8 @@ func (e *EvalCtx) eval(n *XNode) Val {
 			}
 		}
 		orig := "(" + n.Op + " (" + strings.Join(binds, " ") + ") " + body + ")"
-		if ((n.Op == "forall" && e.f.hypMode) || (n.Op == "exists" && !e.f.hypMode)) && len(n.Bind) == 1 && sortOfType(e.typeByName(n.Bind[0].Type)) == "Int" {
+		asHyp := e.f.hypMode != e.neg
+		if !e.nopol && ((n.Op == "forall" && asHyp) || (n.Op == "exists" && !asHyp)) && len(n.Bind) == 1 && sortOfType(e.typeByName(n.Bind[0].Type)) == "Int" {
 			// as a hypothesis: add re-parameterised copies quantified over the absolute array index, so that any read of the array triggers them
 			q := "q_" + n.Bind[0].Name
 			variants := []string{orig}
@@ -317,9 +323,17 @@ func (e *EvalCtx) binary(n *XNode) Val {
 	case "||":
 		return S{or(e.evalBool(n.Kids[0]), e.evalBool(n.Kids[1])), boolT}
 	case "==>":
-		return S{implies(e.evalBool(n.Kids[0]), e.evalBool(n.Kids[1])), boolT}
+		e.neg = !e.neg
+		l := e.evalBool(n.Kids[0])
+		e.neg = !e.neg
+		return S{implies(l, e.evalBool(n.Kids[1])), boolT}
 	case "<==>":
-		return S{eq(e.evalBool(n.Kids[0]), e.evalBool(n.Kids[1])), boolT}
+		saved := e.nopol
+		e.nopol = true
+		l := e.evalBool(n.Kids[0])
+		r := e.evalBool(n.Kids[1])
+		e.nopol = saved
+		return S{eq(l, r), boolT}
 	case "==", "!=":
 		a := e.eval(n.Kids[0])
 		b := e.eval(n.Kids[1])
